@@ -102,6 +102,7 @@ def m_C01(tier):
             for km in (('default', 'raw') if tier == 'quick' else ('default', 'raw', 'str', 'picklenf', 'md5')):
                 cfgs.append(C(mod, alg, ms, False, km, 'dict', fn='pkw', nargs=3, spellings=1))
     cfgs += falsy_configs(tier)
+    cfgs += twin_configs(tier)
     return cfgs
 
 
@@ -331,6 +332,8 @@ def m_C20(tier):
 def ev_for(prop, cfg, tier):
     n = cfg.get('nargs', 3)
     sp = cfg.get('spellings', 2)
+    if cfg.get('twin'):
+        return call_events(n, sp) + [('tcall', i) for i in range(n)] + [('dump',), ('clear',), ('load',), ('raise', 0, 'Boom')]
     if cfg.get('narrow'):
         ev = call_events(n, sp) + [tuple(m) for m in cfg['narrow']]
         if cfg['alg'] == 'lfu':
@@ -409,8 +412,25 @@ RULES = {
 
 def make_monitors_for(prop):
     def mk(cfg):
-        return [e1monitors.MONITORS[prop](cfg)]
+        ms = [e1monitors.MONITORS[prop](cfg)]
+        if cfg.get('twin'):
+            ms.append(e1monitors.Twin(cfg, prop))
+        return ms
     return mk
+
+
+def twin_configs(tier):
+    """a second function decorated by a second decorator of the same class (nothing shared by design)"""
+    cfgs = []
+    for mod in MODULES:
+        for alg in ALL:
+            ms = None if alg in ('no', 'inf') else 2
+            for backend in (('none', 'dict') if tier == 'quick' else ('none', 'dict', 'plaindict')):
+                cfgs.append(C(mod, alg, ms, False, 'default', backend, nargs=3, spellings=1, twin=True))
+            cfgs.append(C(mod, alg, ms, False, 'default', 'none', nargs=3, spellings=1, twin='same-decorator'))
+            if tier == 'thorough':
+                cfgs.append(C(mod, alg, ms, alg in BOUNDED, 'str', 'dict', nargs=3, spellings=1, twin=True))
+    return cfgs
 
 
 def _worker(task):
